@@ -1039,7 +1039,9 @@ func (t *Topic) saveAndBroadcastMessage(msg *ClientComMessage, asUid types.Uid, 
 
 	data := &ServerComMessage{
 		Data: &MsgServerData{
-			Topic:     msg.Original,
+			// The name the topic is known by, not the spelling the publisher used: the recipients of a group
+			// topic which is not a channel would otherwise get the copies under a `chn` name if the publisher used one.
+			Topic:     t.original(asUid),
 			From:      msg.AsUser,
 			Timestamp: msg.Timestamp,
 			SeqId:     t.lastID,
